@@ -723,13 +723,15 @@ class TFLiteSupportedOperators:
         # Easier to start with False condition as very few cases result in a supported resize
         valid = False
         ifm_shape = op.ifm.shape
+        ofm_shape = op.ofm.shape
+        align_corners = op.attrs.get("align_corners", False)
+        if len(ifm_shape) != 4 or len(ofm_shape) != 4:
+            return valid, f"Op has ifm_shape={ifm_shape}, ofm_shape={ofm_shape} and align_corners={align_corners}"
         ifm_shape_h = ifm_shape[1]
         ifm_shape_w = ifm_shape[2]
-        ofm_shape = op.ofm.shape
         ofm_shape_h = ofm_shape[1]
         ofm_shape_w = ofm_shape[2]
 
-        align_corners = op.attrs.get("align_corners", False)
         if len(ifm_shape) == 4:
             # Valid if IFM W and H are both 1, or IFM and OFM shape are the same
             if ((ifm_shape_h == 1) and (ifm_shape_w == 1)) or (ifm_shape == ofm_shape):
